@@ -7,14 +7,15 @@
 (* here (it is API behaviour, module Seeding); AlgOfSeed is the raw         *)
 (* "state whose words are the little-endian words of the seed".            *)
 (***************************************************************************)
-EXTENDS Xoshiro, XorShift
+EXTENDS Xoshiro, XorShift, Hc128, Isaac, Pcg32
 
 XoKinds == Kinds
 LinearKinds == XoKinds \cup {"XorShiftRng"}
-AlgKinds == LinearKinds \cup {"SplitMix64"}
+BlockKinds == {"Hc128Rng", "IsaacRng", "Isaac64Rng"}
+AlgKinds == LinearKinds \cup {"SplitMix64"} \cup BlockKinds
 
 (* native output width in limbs *)
-OutLimbs(k) == IF k \in XoKinds THEN WLimbs(k) ELSE IF k = "XorShiftRng" THEN 2 ELSE 4
+OutLimbs(k) == IF k \in XoKinds THEN WLimbs(k) ELSE IF k \in {"XorShiftRng", "Hc128Rng", "IsaacRng"} THEN 2 ELSE 4
 AlgSeedLen(k) == IF k \in XoKinds THEN SeedBytes(k) ELSE IF k = "XorShiftRng" THEN 16
                  ELSE IF k = "SplitMix64" THEN 8 ELSE 32
 
@@ -22,12 +23,18 @@ AlgOfSeed(k, seed) ==
   CASE k \in XoKinds     -> XoFromSeed(k, seed)
     [] k = "XorShiftRng" -> XsFromSeed(seed)
     [] k = "SplitMix64"  -> FromBytesLE(seed)
+    [] k = "Hc128Rng"    -> HcFromSeed(seed)
+    [] k = "IsaacRng"    -> IsaacStart(32, SeedWords(32, seed), 2)
+    [] k = "Isaac64Rng"  -> IsaacStart(64, SeedWords(64, seed), 2)
 
 (* one native step: <<new state, output word>> *)
 AlgNext(k, s) ==
   CASE k \in XoKinds     -> XoNext(k, s)
     [] k = "XorShiftRng" -> XsNext(s)
     [] k = "SplitMix64"  -> SmNext64(s)
+    [] k = "Hc128Rng"    -> HcStep(s)
+    [] k = "IsaacRng"    -> IsaacNext(32, s)
+    [] k = "Isaac64Rng"  -> IsaacNext(64, s)
 
 (* n native steps: <<final state, <<outputs>> >> *)
 AlgTake(k, s, n) ==
@@ -35,6 +42,6 @@ AlgTake(k, s, n) ==
            <<s, <<>>>>, Idx(n))
 
 (* the observable state image: the sequence of state words *)
-AlgImage(k, s) == IF k = "SplitMix64" THEN <<s>> ELSE s
+AlgImage(k, s) == IF k = "SplitMix64" THEN <<s>> ELSE IF k \in BlockKinds THEN <<>> ELSE s
 AlgIsZero(k, s) == \A i \in 1..Len(AlgImage(k, s)) : IsZero(AlgImage(k, s)[i])
 =============================================================================
